@@ -1,6 +1,7 @@
 """C20 -- bundled readers render every message completely and survive foreign input (partial)."""
 
 import ast
+import re
 
 from ..index import unparse, iter_own_nodes, AnalysisError
 from ..cfg import calls_in_node
@@ -19,9 +20,43 @@ EXPLANATION = (
     "and continues, loads is inside a handler catching ValueError that reports and continues, no fallback arm "
     "returns or raises; eliot.filter performs per line one loads, one evaluation and, unless the result is the "
     "very SKIP object bound for the expression, exactly one write of dumps(result)+newline."
+    "  _render_timestamp hands message[timestamp] to the datetime conversion as it is (no arithmetic, splitting or rounding of it, no datetime field set from a computed number); the two field loops are recognised as for statements or comprehensions, in the formatter or a helper."
 )
 RULE = "obligation = rule instance bound to a table constant / loop / call of prettyprint.py and filter.py; non-trivial = expressions or CFG paths examined"
 ASSUMPTIONS = ["rendered text (value-level) is not decided", "json.dumps without indent emits no newline"]
+
+
+
+def _loop_views(cfg, g):
+    """The loops of g in one shape, whether written as `for` statements or as comprehensions:
+    iter (source text), target, tests (source text of every condition inside), stops, renders(name), node, pos."""
+    views = []
+    for n in cfg.live:
+        if n.kind != "for_next":
+            continue
+        region = common.loop_region(cfg, n)
+        tests = [t for t in region if t.kind == "test"]
+
+        def renders(name, n=n, region=region, tests=tests):
+            def uses(x):
+                return x.ast is not None and x.kind == "stmt" and name in {y.id for e in x.exprs for y in ast.walk(e) if isinstance(y, ast.Name)} and (
+                    isinstance(x.ast, (ast.AugAssign, ast.Assign, ast.Expr)))
+            rend = [x for x in region if uses(x)]
+            starts = [s_ for t in tests for s_, l in t.succ if l == "true"] or [s_ for s_, l in n.succ if l == "body"]
+            return bool(rend) and cfg.must_pass(starts, [n], rend, skip_labels=("exc",))[0]
+        views.append({"iter": unparse(n.ast.iter), "target": n.ast.target, "tests": [unparse(t.exprs[0]) for t in tests],
+                      "stops": any(x.kind in ("break", "continue", "return") for x in region), "renders": renders, "node": n, "pos": (n.ast.lineno, n.ast.col_offset)})
+    for n in cfg.live:
+        for e in n.exprs:
+            for c in ast.walk(e):
+                if isinstance(c, (ast.GeneratorExp, ast.ListComp)) and len(c.generators) == 1:
+                    gen = c.generators[0]
+
+                    def renders(name, c=c):
+                        return name in {y.id for y in ast.walk(c.elt) if isinstance(y, ast.Name)}
+                    views.append({"iter": unparse(gen.iter), "target": gen.target, "tests": [unparse(t) for t in gen.ifs], "stops": False,
+                                  "renders": renders, "node": n, "pos": (c.lineno, c.col_offset)})
+    return views
 
 
 def rule_complete(chk):
@@ -63,44 +98,31 @@ def rule_complete(chk):
         found = None
         for g, mparam in cands:
             cfg = ctx.cfg(g)
-            loops = [n for n in cfg.live if n.kind == "for_next"]
-            l1 = [n for n in loops if unparse(n.ast.iter) == "_first_fields"]
-            l2 = [n for n in loops if "%s.items()" % mparam in unparse(n.ast.iter)]
+            views = _loop_views(cfg, g)
+            l1 = [v for v in views if v["iter"] == "_first_fields"]
+            l2 = [v for v in views if re.search(r"(?<![\w.])%s\.items\(\)" % re.escape(mparam), v["iter"])]
             if len(l1) == 1 and len(l2) == 1:
-                found = (g, mparam, cfg, l1, l2)
+                found = (g, mparam, cfg, l1[0], l2[0])
         if found is None:
             raise AnalysisError("%s: the first-fields loop and the loop over the message's items were not found (in the formatter or a helper)" % q)
-        g, mparam, cfg, l1, l2 = found
-        it = l2[0].ast.iter
-        if unparse(it) not in ("sorted(%s.items())" % mparam, "%s.items()" % mparam):
-            problems.append("the remaining-fields loop iterates %s, not the whole message" % unparse(it))
-        if not cfg.precedes(l1, l2)[0]:
+        g, mparam, cfg, v1, v2 = found
+        if v2["iter"] not in ("sorted(%s.items())" % mparam, "%s.items()" % mparam):
+            problems.append("the remaining-fields loop iterates %s, not the whole message" % v2["iter"])
+        if not cfg.precedes([v1["node"]], [v2["node"]])[0] and not (v1["node"] is v2["node"] and v1["pos"] < v2["pos"]):
             problems.append("the remaining fields are rendered before type/status")
-        kv = l2[0].ast.target.elts[0].id if isinstance(l2[0].ast.target, ast.Tuple) else None
-        region = common.loop_region(cfg, l2[0])
-        tests = [t for t in region if t.kind == "test"]
-        okf = len(tests) == 1 and unparse(tests[0].exprs[0]) == "%s not in _skip_fields" % kv
-        if not okf:
-            problems.append("fields are filtered by %s instead of only `%s not in _skip_fields`" % ([unparse(t.exprs[0]) for t in tests], kv))
-        if any(n.kind in ("break", "continue", "return") for n in region):
+        kv = v2["target"].elts[0].id if isinstance(v2["target"], ast.Tuple) and isinstance(v2["target"].elts[0], ast.Name) else None
+        if v2["tests"] != ["%s not in _skip_fields" % kv]:
+            problems.append("fields are filtered by %s instead of only `%s not in _skip_fields`" % (v2["tests"], kv))
+        if v2["stops"]:
             problems.append("the remaining-fields loop can skip or stop")
-
-        def uses(n, name):
-            return n.ast is not None and n.kind in ("stmt",) and name in {x.id for e in n.exprs for x in ast.walk(e) if isinstance(x, ast.Name)} and (
-                isinstance(n.ast, (ast.AugAssign, ast.Assign)) or any(isinstance(x, ast.Yield) for e in n.exprs for x in ast.walk(e)))
-        body_true = [s_ for t in tests for s_, l in t.succ if l == "true"]
-        rend = [n for n in region if uses(n, kv)]
-        if tests and (not rend or not cfg.must_pass(body_true, [l2[0]], rend, skip_labels=("exc",))[0]):
+        if v2["tests"] and not v2["renders"](kv):
             problems.append("a kept field is not rendered on some path")
         # first loop: each present first field rendered, and only presence decides
-        r1 = common.loop_region(cfg, l1[0])
-        t1 = [t for t in r1 if t.kind == "test"]
-        fv = l1[0].ast.target.id
-        rend1 = [n for n in r1 if uses(n, fv)]
-        if not (len(t1) == 1 and unparse(t1[0].exprs[0]) == "%s in %s" % (fv, mparam)):
+        fv = v1["target"].id if isinstance(v1["target"], ast.Name) else None
+        if v1["tests"] != ["%s in %s" % (fv, mparam)]:
             problems.append("type/status fields are rendered under %s, not exactly when present in the message (a present but falsy value is dropped, and the skip set keeps the other loop from showing it)"
-                            % [unparse(t.exprs[0]) for t in t1])
-        elif not rend1 or not cfg.must_pass([s_ for s_, l in t1[0].succ if l == "true"], [l1[0]], rend1, skip_labels=("exc",))[0]:
+                            % v1["tests"])
+        elif not v1["renders"](fv):
             problems.append("a present first field is not rendered")
         # header reads the three
         rets = common.returns_of(fcfg)
@@ -111,6 +133,38 @@ def rule_complete(chk):
         if not any(rt in ctx.targets(f, c) and c.args and isinstance(c.args[0], ast.Name) and c.args[0].id == fparam for r in rets for c in ast.walk(r.ast.value) if isinstance(c, ast.Call)):
             problems.append("the header does not show the timestamp")
         chk.req(not problems, "C20.complete", "%s:every-field-rendered" % q, chk.where(f), good="header(3) + first fields + every other item of the message (loops in %s)" % g.fq, fail="; ".join(problems), sites=len(cfg.live))
+    # the timestamp value reaches the conversion untouched: no arithmetic, splitting or rounding of it before
+    # fromtimestamp (which does the microsecond rounding with carry itself), and no datetime field is set from a
+    # computed number (datetime.replace(microsecond=1000000) raises ValueError)
+    tainted = set()
+    is_ts = lambda e: isinstance(e, ast.Subscript) and ctx.try_fold(rt, e.slice) == (True, TS)
+    has_ts = lambda e: any(is_ts(x) or (isinstance(x, ast.Name) and x.id in tainted) for x in ast.walk(e))
+    changed = True
+    while changed:
+        changed = False
+        for n in iter_own_nodes(rt.node):
+            if isinstance(n, ast.Assign) and has_ts(n.value):
+                for t in n.targets:
+                    for x in ast.walk(t):
+                        if isinstance(x, ast.Name) and x.id not in tainted:
+                            tainted.add(x.id); changed = True
+    arith = []
+    for n in iter_own_nodes(rt.node):
+        if isinstance(n, (ast.BinOp, ast.UnaryOp)) and not isinstance(getattr(n, "op", None), ast.Not) and any(is_ts(x) for x in (getattr(n, "left", None), getattr(n, "right", None), getattr(n, "operand", None)) if x is not None):
+            arith.append(unparse(n))
+        if isinstance(n, ast.Call):
+            nm = n.func.id if isinstance(n.func, ast.Name) else (n.func.attr if isinstance(n.func, ast.Attribute) else "")
+            args = list(n.args) + [k.value for k in n.keywords]
+            if nm in ("divmod", "round", "int", "floor", "ceil", "trunc", "modf") and any(is_ts(a) for a in args):
+                arith.append(unparse(n))
+            if nm in ("replace", "datetime", "timedelta", "time") and any(not isinstance(a, ast.Constant) and not (isinstance(a, ast.Attribute) or isinstance(a, ast.Name) and a.id in ("tz", "tzinfo", "timezone", "None")) for a in args):
+                if any(has_ts(a) or isinstance(a, (ast.Call, ast.BinOp)) for a in args):
+                    arith.append(unparse(n))
+    n_ts = sum(1 for n in ast.walk(rt.node) if is_ts(n))
+    chk.req(not arith and n_ts >= 1, "C20.complete", "_render_timestamp:timestamp-converted-whole", chk.where(rt),
+            good="message[timestamp] is handed to the datetime conversion as it is (%d reads); no arithmetic on it" % n_ts,
+            fail="the timestamp is taken apart or rounded by hand before the conversion (%s): the hand-made sub-second part can reach 1000000 or lose the carry into the next second, so "
+                 "some timestamps raise ValueError or render a different microsecond" % "; ".join(arith[:3]))
     okts = any(isinstance(n, ast.Subscript) and ctx.try_fold(rt, n.slice) == (True, TS) for n in ast.walk(rt.node)) and "isoformat" in " ".join(unparse(s) for s in rt.node.body)
     chk.req(okts, "C20.complete", "_render_timestamp:reads-the-timestamp", chk.where(rt), good="renders message[timestamp] via isoformat (microseconds)", fail="_render_timestamp does not render message[timestamp] with isoformat")
 
